@@ -162,6 +162,9 @@ pub fn gen_c08(out: &mut dyn Write, thorough: bool, seed: u64) {
             let mut ops: Vec<String> = vec![];
             let mut cur: Option<usize> = None;
             let len = r.range(0, if thorough { 12 } else { 8 }) as usize;
+            // the history is built by executing it on the real code (indices must stay in range); when the real code panics
+            // here, the history up to and including the panicking call IS the case: it is emitted and replayed by `run`
+            let shadow = crate::util::catch(|| {
             for _ in 0..len {
                 match r.below(11) {
                     0 | 1 | 2 => {
@@ -177,24 +180,24 @@ pub fn gen_c08(out: &mut dyn Write, thorough: bool, seed: u64) {
                             }
                         };
                         let name = ["raw", "tok", "part"][kind];
+                        ops.push(format!("{name}:{}", hexs(&text)));
                         let _ = match kind {
                             0 => s.update_raw(text.clone()),
                             1 => s.update_tokenized(&text),
                             _ => s.update_partial_annotation(&text),
                         };
                         cur = None;
-                        ops.push(format!("{name}:{}", hexs(&text)));
                     }
                     3 | 4 => {
                         let k = r.below(preds.len());
+                        ops.push(format!("pred:{k}"));
                         preds[k].predict(&mut s);
                         cur = Some(k);
-                        ops.push(format!("pred:{k}"));
                     }
                     5 => {
                         if cur.map_or(true, |k| can_fill[k]) {
-                            s.fill_tags();
                             ops.push("fill".into());
+                            s.fill_tags();
                         }
                     }
                     6 => {
@@ -251,6 +254,12 @@ pub fn gen_c08(out: &mut dyn Write, thorough: bool, seed: u64) {
                     }
                     _ => ops.push("obs".into()),
                 }
+            }
+            });
+            if shadow.is_err() {
+                ops.push("obs".into());
+                writeln!(out, "H {CFG} {} {} c08", specs.join("!"), ops.join(",")).unwrap();
+                continue;
             }
             // the probe: update_raw(x); predict; [fill_tags]; observe
             let x = gen_text_tags(&mut r, &m1, &alpha, 12);
